@@ -117,7 +117,7 @@ def gen_trace(recipe):
   if init == 'lda':
     k = kk = min(kk, ncls - 1)
   if init == 'array':
-    init_arg = gen.grid(rng.normal(size=(kk, d)) * 0.7, bits=4)
+    init_arg = gen.layout(rng, gen.grid(rng.normal(size=(kk, d)) * 0.7, bits=4))
   else:
     init_arg = init
   seed = int(rng.integers(1000))
